@@ -83,6 +83,20 @@ namespace DFS
 	  else
 	    return buf;
 	}
+      // Don't trust |len| (which may have come from the image file
+      // itself) when sizing the buffer; we can't read more than the
+      // file contains.
+      const auto here = f_.tellg();
+      if (f_.seekg(0, f_.end))
+	{
+	  const auto file_size = f_.tellg();
+	  if (here >= file_size)
+	    len = 0;
+	  else if (static_cast<unsigned long>(file_size - here) < len)
+	    len = static_cast<unsigned long>(file_size - here);
+	}
+      f_.clear();
+      f_.seekg(here, f_.beg);
       buf.resize(len);
       f_.read(reinterpret_cast<char*>(buf.data()), len);
       buf.resize(f_.gcount());
